@@ -3,6 +3,7 @@ package vstub
 import (
 	"context"
 	"fmt"
+	"sync"
 
 	coreiface "github.com/ipfs/kubo/core/coreiface"
 	"github.com/ipfs/kubo/core/coreiface/options"
@@ -35,14 +36,28 @@ type ScriptedPubSub struct {
 
 // LiveSub is a subscription fed by the harness (Push) instead of a script.
 type LiveSub struct {
-	ch chan *Msg
+	ch     chan *Msg
+	closed chan struct{}
+	once   sync.Once
 }
 
-func (s *LiveSub) Close() error { return nil }
+// Close ends the subscription: a pending or later Next returns an error (as the
+// real subscription does).
+func (s *LiveSub) Close() error {
+	s.once.Do(func() {
+		if s.closed != nil {
+			close(s.closed)
+		}
+	})
+	return nil
+}
+
 func (s *LiveSub) Next(ctx context.Context) (coreiface.PubSubMessage, error) {
 	select {
 	case m := <-s.ch:
 		return m, nil
+	case <-s.closed:
+		return nil, fmt.Errorf("subscription closed")
 	case <-ctx.Done():
 		return nil, ctx.Err()
 	}
@@ -131,7 +146,7 @@ func (p *ScriptedPubSub) Subscribe(ctx context.Context, topic string, opts ...op
 	Yield() // a subscribe is a network operation: other goroutines may run meanwhile
 	p.Subscribes++
 	if p.LiveSubs {
-		s := &LiveSub{ch: make(chan *Msg, 16)}
+		s := &LiveSub{ch: make(chan *Msg, 16), closed: make(chan struct{})}
 		p.Subs = append(p.Subs, s)
 		return s, nil
 	}
